@@ -263,6 +263,9 @@ def gen_case(rng, force=None):
                     if has(0.5):
                         g['itab'] = rng.choice(['x', '1', 'E'])
                         g['enthalpy'] = [real(rng, '14.7e', True) for _ in range(nt)]
+                    if has(0.25):
+                        # the table length is |LTAB|: a negative count is documented input
+                        g['ltab'] = -nt
             gens.append(g)
     c['generators'] = gens
     c['duplicate_generator_keys'] = len(set((g['block'], g['name']) for g in gens)) < len(gens)
@@ -325,13 +328,15 @@ def gen_case(rng, force=None):
                 xp = [x for x in xp if x not in ('ELEME', 'CONNE')]
             if not xp:
                 xp = ['ROCKS']
-        elif mesh != 'infile':
+        elif mesh == 'binary' or has(0.5):
             xp = ['ROCKS', 'RPCAP', 'GENER']
+        # (else: all sections asked for with True although the mesh goes to a MESH file: the companion file then holds the
+        #  blocks and connections too, the main file cannot echo them)
         echo = has(0.4)
     if xp:
         # only sections that hold data can be told apart in the companion file
         lst = ['ROCKS', 'ELEME', 'CONNE', 'RPCAP', 'GENER'] if xp is True else list(xp)
-        if mesh != 'infile':
+        if mesh != 'infile' and not (xp is True and mesh == 'MESH'):
             lst = [x for x in lst if x not in ('ELEME', 'CONNE')]
         if not c['rpcap']:
             lst = [x for x in lst if x != 'RPCAP']
@@ -341,7 +346,7 @@ def gen_case(rng, force=None):
             lst = [x for x in lst if x != 'CONNE']
         if not blocks:
             lst = [x for x in lst if x not in ('ELEME', 'CONNE')]
-        as_true = xp is True and mesh == 'infile'
+        as_true = xp is True and mesh in ('infile', 'MESH')
         xp = lst
         if not xp:
             echo = False
